@@ -94,6 +94,18 @@ func (m *MatchWinbox) Match(cx *layer4.Connection) (bool, error) {
 		return false, err
 	}
 
+	// What has arrived of a message of two chunks may end inside the second chunk: wait for the rest of it
+	if missing := missingChunkBytes(buf[:2+n]); missing > 0 {
+		if n+missing > l {
+			return false, nil
+		}
+		var more int
+		more, err = io.ReadAtLeast(cx, buf[2+n:], missing)
+		if n += more; err != nil || n > l {
+			return false, err
+		}
+	}
+
 	// Parse MessageAuth
 	msg := &MessageAuth{}
 	if err = msg.FromBytes(buf[:n+2]); err != nil {
@@ -225,6 +237,25 @@ type MessageAuth struct {
 	PublicKeyParity uint8
 	PublicKeyBytes  []byte
 	Username        string
+}
+
+// missingChunkBytes returns the number of bytes by which src, a sequence of chunks, ends short of the end of a chunk
+// (0 if it ends with a chunk; a full chunk may be followed by another one).
+func missingChunkBytes(src []byte) int {
+	for len(src) > 0 {
+		if len(src) < 2 {
+			return 2 - len(src)
+		}
+		n := 2 + int(src[0])
+		if len(src) < n {
+			return n - len(src)
+		}
+		if n < 2+MessageChunkBytesMax {
+			break
+		}
+		src = src[n:]
+	}
+	return 0
 }
 
 // MessageChunk is a part of a bigger message. It may contain no more than 255 bytes.
